@@ -58,9 +58,16 @@ def cmd_check(a):
     n = a.cases if a.cases is not None else prof.n_cases(tier)
     nsmoke = min(n, 48 if tier == "quick" else 400)
     bad, first = determinism_smoke(pid, tier, seed, libs, nsmoke, timeout)
-    if bad:
+    if bad and not getattr(prof, "NONDET_IS_VIOLATION", False):
         print("HARNESS-ERROR nondeterministic event logs for cases %s" % bad[:10])
         return 2
+    for r in first:
+        if r["index"] in bad:
+            # the harness is deterministic on its own (selftest); for this property a repeated execution of the very
+            # same case that yields another event log is the violation itself
+            r["viol"].append({"class": "violation", "oracle": pid + ".repeatable", "lifetime": None,
+                              "detail": "two executions of the same concrete case produced different event logs"})
+            r["case"] = prof.generate(seed, tier, r["index"])
     idx = list(range(a.start + nsmoke, a.start + n))
     recs = first + runner.run_pool(pid, tier, seed, idx, libs, timeout)
     return finish(pid, tier, seed, prof, recs, libs, timeout, known, t0, a, extra_cov={"determinism_smoke_cases": nsmoke})
@@ -117,9 +124,15 @@ def finish(pid, tier, seed, prof, recs, libs, timeout, known, t0, a, extra_cov=N
             doc["replay_reproduced_twice"] = bool(ok and ok2 and digest == digest2)
             json.dump(doc, open(path, "w", encoding="utf-8"), ensure_ascii=False, indent=1, default=str)
             if not (ok and ok2):
-                print("HARNESS-ERROR violation %s of case %d did not reproduce on replay (%s)" % (key, r["index"], path))
-                exit_code = 2
-                continue
+                if getattr(prof, "NONDET_IS_VIOLATION", False):
+                    # same concrete case, different verdicts: the executions are not repeatable, which this property forbids
+                    v2 = dict(v2, oracle=pid + ".repeatable",
+                              detail="verdict '%s' of this concrete case did not repeat on re-execution: %s" % (key, v2.get("detail")))
+                    path = runner.write_replay(pid, seed, small, v2, digest)
+                else:
+                    print("HARNESS-ERROR violation %s of case %d did not reproduce on replay (%s)" % (key, r["index"], path))
+                    exit_code = 2
+                    continue
             print("VIOLATION property=%s replay=%s" % (pid, path))
             print("  oracle=%s class=%s case=%d\n  %s" % (v2.get("oracle"), v2.get("class"), r["index"],
                                                          str(v2.get("detail"))[:1500].replace("\n", "\n  ")))
